@@ -202,12 +202,19 @@ def misc_case(args):
     g = sp.raw("COMP glob %s %d" % (hx("glob"), len(pats)) + "".join(" " + hx(p) for p in pats))
     sp.raw("REC %s %d %s" % (hx("rec_glob"), g, hx("out")))
     # file to params, command to params
-    plines = ["p%d" % j for j in range(rng.randint(0, 5))]
-    sp.files["params.txt"] = "".join(l + "\n" for l in plines)
+    def text():
+        # lines with blank lines, CRLF ends, a missing final newline; the empty text
+        ls = [rng.choice(["p%d" % j, "p%d" % j, "", "two words", "x\r"]) for j in range(rng.choice([0, 0, 1, 2, 3, 5]))]
+        t = "".join(l + "\n" for l in ls)
+        return t[:-1] if t and rng.random() < 0.3 else t
+    ptext = text()
+    plines = ptext.splitlines()
+    sp.files["params.txt"] = ptext
     f = sp.raw("COMP f2p %s %s" % (hx("f2p"), hx("params.txt")))
     sp.raw("PREC %s %d %s" % (hx("rec_f2p"), f, hx("line")))
-    k = rng.randint(1, 5)
-    cp = sp.raw("COMP c2p %s %s" % (hx("c2p"), hx("seq 1 %d" % k)))
+    ctext = text()
+    sp.files["cmdout.txt"] = ctext
+    cp = sp.raw("COMP c2p %s %s" % (hx("c2p"), hx("cat cmdout.txt")))
     sp.raw("PREC %s %d %s" % (hx("rec_c2p"), cp, hx("param")))
     ps = sp.psrc("psrc", ["v%d" % j for j in range(L)])
     sp.raw("PREC %s %d %s" % (hx("rec_psrc"), ps, hx("out")))
@@ -234,8 +241,9 @@ def misc_case(args):
             ml = model_eval("lines", hx(sp.files["params.txt"])).split()
             if rec_lines(sc, "rec_f2p") != [unhx(x) for x in ml[1:]]:
                 problems.append(("file-to-params", "emitted %s, lines are %s" % (rec_lines(sc, "rec_f2p"), plines)))
-            if rec_lines(sc, "rec_c2p") != [str(x) for x in range(1, k + 1)]:
-                problems.append(("command-to-params", "emitted %s, command printed 1..%d" % (rec_lines(sc, "rec_c2p"), k)))
+            cl = model_eval("lines", hx(ctext)).split()
+            if rec_lines(sc, "rec_c2p") != [unhx(x) for x in cl[1:]]:
+                problems.append(("command-to-params", "emitted %s, the command printed %r" % (rec_lines(sc, "rec_c2p"), ctext)))
             if rec_lines(sc, "rec_psrc") != ["v%d" % j for j in range(L)] or rec_lines(sc, "rec_src") != paths:
                 problems.append(("sources", "sources emitted %s / %s" % (rec_lines(sc, "rec_psrc"), rec_lines(sc, "rec_src"))))
         return {"spec": sp.text(), "bufsize": sp.bufsize, "problems": problems, "ntasks": L, "rc": impl["rc"], "stderr": impl["stderr"][-200:], "yield": None, "wall": impl["wall"], "kind": "misc", "nontrivial": L >= 1}
